@@ -231,8 +231,8 @@ impl<F: RichField + Extendable<D>, const D: usize> CircuitBuilder<F, D> {
 
     /// Exponentiates `base` to the power of `2^power_log`.
     pub fn exp_power_of_2(&mut self, base: Target, power_log: usize) -> Target {
-        if power_log > self.num_base_arithmetic_ops_per_gate() {
-            // Cheaper to just use `ExponentiateGate`.
+        if power_log > self.num_base_arithmetic_ops_per_gate() && power_log < 64 {
+            // Cheaper to just use `ExponentiateGate` (the exponent `2^power_log` must fit in a u64).
             return self.exp_u64(base, 1 << power_log);
         }
 
@@ -255,6 +255,27 @@ impl<F: RichField + Extendable<D>, const D: usize> CircuitBuilder<F, D> {
         let num_power_bits = gate.num_power_bits;
         let mut exp_bits_vec: Vec<BoolTarget> =
             exponent_bits.into_iter().map(|b| *b.borrow()).collect();
+        if exp_bits_vec.len() > num_power_bits {
+            // More exponent bits than one `ExponentiationGate` holds (narrow configurations): bit
+            // `num_power_bits` would land on the gate's output wire. Split the exponent into chunks:
+            // base^e = prod_j (base^(2^(j * num_power_bits)))^(chunk_j).
+            let chunks: Vec<Vec<BoolTarget>> = exp_bits_vec
+                .chunks(num_power_bits)
+                .map(|c| c.to_vec())
+                .collect();
+            let mut result = self.one();
+            let mut cur_base = base;
+            for (j, chunk) in chunks.iter().enumerate() {
+                let part = self.exp_from_bits(cur_base, chunk.iter());
+                result = self.mul(result, part);
+                if j + 1 < chunks.len() {
+                    for _ in 0..num_power_bits {
+                        cur_base = self.square(cur_base);
+                    }
+                }
+            }
+            return result;
+        }
         while exp_bits_vec.len() < num_power_bits {
             exp_bits_vec.push(_false);
         }
@@ -292,13 +313,12 @@ impl<F: RichField + Extendable<D>, const D: usize> CircuitBuilder<F, D> {
 
         let mut product = self.one();
         for (i, bit) in exponent_bits.iter().enumerate() {
-            let pow = 1u64 << i;
-            // If the bit is on, we multiply product by base^pow.
+            // If the bit is on, we multiply product by base^pow, where pow = 2^i.
             // We can arithmetize this as:
             //     product *= 1 + bit (base^pow - 1)
             //     product = (base^pow - 1) product bit + product
             product = self.arithmetic(
-                base.exp_u64(pow) - F::ONE,
+                base.exp_power_of_2(i) - F::ONE,
                 F::ONE,
                 product,
                 bit.target,
